@@ -118,7 +118,9 @@ def run_shard(args):
             phases = [Phase.explicit, Phase.generate]
             if tier == "thorough" or os.environ.get("VERIF_SHRINK") == "1":
                 phases.append(Phase.shrink)
-            n = int(shard.get("n", 10))
+            # Hypothesis always starts with the all-minimal example (one s shell at the origin, coincident centres, ...);
+            # one extra example is granted so that a shard of n examples contains n generated ones.
+            n = int(shard.get("n", 10)) + 1
 
             @hseed(seed)
             @settings(
